@@ -33,6 +33,7 @@ def run(chk, F):
     chk.guard("checked-arithmetic", "Value ops", lambda: checked(chk, F))
     chk.guard("instant-preserving", "zone conversions", lambda: zones(chk, F))
     chk.guard("keyword-table", "datepatterns.txt", lambda: keywords(chk, F))
+    chk.guard("pattern-table", "datepatterns.txt", lambda: pattern_overlap(chk, F))
     chk.guard("scale-constants", "to/from_duration", lambda: scales(chk, F))
     chk.guard("offset-arithmetic", "parse_date", lambda: offset_arith(chk, F))
     chk.guard("operator-table", "Value Add/Sub", lambda: operator_table(chk, F))
@@ -513,3 +514,126 @@ def literal_fields(chk, F):
                "both forms of `sec` (integer, with fraction) bound the seconds before storing them",
                "a form of `sec` stores seconds that were not range-checked (%d of %d stores bounded): `#2020-01-01 10:00:75.5#` is accepted "
                "and the time silently becomes midnight" % (bounded, len(stores)))
+
+
+# token class of every keyword of datepatterns.txt: ("num", digits (0 = any), lo, hi) or ("word", set name)
+PATTERN_CLASSES = {
+    "fullyear": ("num", 4, 0, 9999), "shortyear": ("num", 2, 0, 99), "century": ("num", 2, 0, 99), "monthnum": ("num", 2, 1, 12),
+    "day": ("num", 0, 1, 31), "fullday": ("num", 2, 1, 31), "min": ("num", 2, 0, 59), "ordinal": ("num", 3, 1, 366),
+    "isoyear": ("num", 4, 0, 9999), "isoweek": ("num", 2, 1, 53), "hour12": ("num", 2, 1, 12), "hour24": ("num", 2, 0, 23),
+    "sec": ("num", 2, 0, 60), "year": ("num", 0, 0, 10 ** 9), "unix": ("num", 0, 0, 2 ** 31 - 1),
+    "monthname": ("word", "month"), "weekday": ("word", "weekday"), "meridiem": ("word", "ampm"), "adbc": ("word", "era"),
+    "offset": ("word", "zone"),
+}
+
+
+def _parse_pattern(text):
+    """[(kind, value)] with kinds kw / lit / sp / dash / colon / opt(list)."""
+    pos = 0
+
+    def rec():
+        nonlocal pos
+        out = []
+        while pos < len(text):
+            c = text[pos]
+            if c == "]":
+                break
+            if c == "[":
+                pos += 1
+                inner = rec()
+                if pos >= len(text) or text[pos] != "]":
+                    raise AnchorLost("datepatterns.txt: unbalanced [ in %r" % text)
+                pos += 1
+                out.append(("opt", inner))
+            elif c == "-":
+                pos += 1
+                out.append(("dash", "-"))
+            elif c == ":":
+                pos += 1
+                out.append(("colon", ":"))
+            elif c == "'":
+                e = text.index("'", pos + 1)
+                out.append(("lit", text[pos + 1:e]))
+                pos = e + 1
+            elif c.isspace():
+                while pos < len(text) and text[pos].isspace():
+                    pos += 1
+                out.append(("sp", " "))
+            elif c.isalpha():
+                b = pos
+                while pos < len(text) and (text[pos].isalnum() or text[pos] == "_"):
+                    pos += 1
+                out.append(("kw", text[b:pos]))
+            else:
+                pos += 1
+                out.append(("lit", c))
+        return out
+    return rec()
+
+
+def _expand(seq):
+    """All flat sequences of a pattern (every optional group present or absent)."""
+    outs = [[]]
+    for k, v in seq:
+        if k == "opt":
+            inner = _expand(v)
+            outs = [o + i for o in outs for i in ([[]] + inner)]
+        else:
+            outs = [o + [(k, v)] for o in outs]
+    return outs
+
+
+def _compatible(a, b):
+    if a[0] != "kw" or b[0] != "kw":
+        return a == b
+    ca, cb = PATTERN_CLASSES.get(a[1]), PATTERN_CLASSES.get(b[1])
+    if ca is None or cb is None:
+        return a[1] == b[1]
+    if ca[0] != cb[0]:
+        return False
+    if ca[0] == "word":
+        return ca[1] == cb[1]
+    return (ca[1] == 0 or cb[1] == 0 or ca[1] == cb[1]) and max(ca[2], cb[2]) <= min(ca[3], cb[3])
+
+
+def pattern_overlap(chk, F):
+    """`a date literal matching a documented pattern denotes the instant that pattern describes`: try_decode takes the first
+    pattern that succeeds.  If two patterns accept the same token string but read a position as different fields, the later one is
+    documented and never used for those literals - `day monthname year` placed before `year monthname day` silently swaps year and
+    day of `#0012 January 5#`.  Data lint over core/datepatterns.txt: every optional group is expanded, two flat sequences clash
+    when they have the same length, every position can match the same token (same punctuation; numbers with compatible digit
+    counts and overlapping ranges; words of the same kind) and some position carries different keywords."""
+    import facts
+    import os as _os
+    pth = _os.path.join(facts.REPO, "core", "datepatterns.txt")
+    pats = []
+    for n, line in enumerate(open(pth, encoding="utf-8"), 1):
+        t = line.strip()
+        if t and not t.startswith("#"):
+            pats.append((n, t, _expand(_parse_pattern(t))))
+    if len(pats) < 10:
+        raise AnchorLost("datepatterns.txt: only %d patterns" % len(pats))
+    clashes = []
+    for i in range(len(pats)):
+        for j in range(i + 1, len(pats)):
+            hit = None
+            for fa in pats[i][2]:
+                for fb in pats[j][2]:
+                    if len(fa) == len(fb) and fa and all(_compatible(x, y) for x, y in zip(fa, fb)) and any(x != y for x, y in zip(fa, fb)):
+                        # reading a number as `fullday` or `day`, `year` or `fullyear` is the same field: only different *fields* clash
+                        def field(e):
+                            return {"fullday": "day", "fullyear": "year", "hour12": "hour", "hour24": "hour"}.get(e[1], e[1]) if e[0] == "kw" else e[1]
+                        if any(field(x) != field(y) for x, y in zip(fa, fb)):
+                            hit = (fa, fb)
+                            break
+                if hit:
+                    break
+            if hit:
+                clashes.append((pats[i][0], pats[i][1], pats[j][0], pats[j][1]))
+    for a, ta, b, tb in clashes:
+        chk.finding("pattern-table", "core/datepatterns.txt", "clash:%s<>%s" % (ta[:40], tb[:40]), "core/datepatterns.txt:%d" % a,
+                    "the patterns of lines %d (`%s`) and %d (`%s`) accept the same literals and read them as different fields; the first one wins, so the "
+                    "second is never what such a literal denotes (`#0012 January 5#` read day-first is the 12th of January of the year 5)" % (a, ta, b, tb))
+    if not clashes:
+        chk.ok("pattern-table", "core/datepatterns.txt", "no-two-patterns-read-one-literal-differently", "core/datepatterns.txt",
+               "%d patterns, %d expanded forms: no two accept the same token string with different field assignments" % (len(pats), sum(len(p[2]) for p in pats)))
